@@ -64,6 +64,7 @@ structure Cfg where
   pSize : Bool
   unchangedChecksType : Bool   -- RegisterPattern's "not changed" early return also compares the swamp type
   saveAtomic : Bool            -- settings.json is replaced atomically (temp file + rename), not rewritten in place
+  unchangedChecksDisk : Bool   -- the "not changed" early return is taken only while the last save of the file succeeded
   deriving DecidableEq, Repr
 
 def rank (cfg : Cfg) (p : Name) : Int :=
@@ -170,6 +171,60 @@ def reload (cfg : Cfg) (reg : List Entry) : List Entry := reg.map (fun e => ofPM
     `New` silently starts with NO patterns; an atomic replace leaves the previous file intact -/
 def afterTornSave (cfg : Cfg) (disk : List Entry) : List Entry :=
   if cfg.saveAtomic then reload cfg disk else []
+
+/-! ### runtime map and settings.json side by side -/
+
+/-- registration operations as the caller sees them: every one of them is acknowledged; `torn` is a
+    registration whose save of settings.json failed part-way -/
+inductive POp where
+  | reg (p : Name) (inMem : Bool) (idle wi size : Int)
+  | torn (p : Name) (inMem : Bool) (idle wi size : Int)
+  | dereg (p : Name)
+
+def POp.pat : POp → Name
+  | .reg p _ _ _ _ => p
+  | .torn p _ _ _ _ => p
+  | .dereg p => p
+
+/-- the same history for the runtime map alone (a torn registration still enters the map) -/
+def POp.toRegOp : POp → RegOp
+  | .reg p m i w s => .reg p m i w s
+  | .torn p m i w s => .reg p m i w s
+  | .dereg p => .dereg p
+
+structure RD where
+  rt : List Entry      -- s.patterns
+  disk : List Entry    -- what settings.json parses to
+  dirty : Bool         -- the last SaveSettingsToFilesystem failed (the file may be behind the map)
+
+/-- the registration without the early return -/
+def regForce (reg : List Entry) (p : Name) (inMem : Bool) (idle wi size : Int) : List Entry :=
+  reg.filter (fun e => !hasKey (canon p) e) ++ [entryOf p inMem idle wi size]
+
+/-- the "already registered and not changed" early return, as far as the file is concerned -/
+def earlyRD (cfg : Cfg) (s : RD) (p : Name) (inMem : Bool) (idle wi size : Int) : Bool :=
+  !inMem && unchanged cfg s.rt (canon p) idle wi size && (!cfg.unchangedChecksDisk || !s.dirty)
+
+def stepRD (cfg : Cfg) (s : RD) : POp → RD
+  | .reg p m i w sz =>
+    if earlyRD cfg s p m i w sz then s
+    else let rt' := regForce s.rt p m i w sz; ⟨rt', rt', false⟩
+  | .torn p m i w sz =>
+    if earlyRD cfg s p m i w sz then s
+    else ⟨regForce s.rt p m i w sz, if cfg.saveAtomic then s.disk else [], true⟩
+  | .dereg p => let rt' := deregister s.rt p; ⟨rt', rt', false⟩
+
+def runRD (cfg : Cfg) (s : RD) (h : List POp) : RD := h.foldl (stepRD cfg) s
+
+/-- Spec of the FILE: a key holds its registration when the last operation on it was an acknowledged, untorn
+    registration; a torn one makes no promise; other keys keep what they had -/
+def specDiskOp (f : Bytes → Option (Option Entry)) : POp → Bytes → Option (Option Entry)
+  | .reg p m i w s => fun k => if k = canon p then some (some (entryOf p m i w s)) else f k
+  | .torn p _ _ _ _ => fun k => if k = canon p then none else f k
+  | .dereg p => fun k => if k = canon p then some none else f k
+
+/-- `some x`: the file must hold exactly `x` for the key; `none`: no promise -/
+def specDisk (h : List POp) : Bytes → Option (Option Entry) := h.foldl specDiskOp (fun _ => some none)
 
 /-- registries reachable through the gateway: separator-free parts, one entry per key -/
 structure WF (reg : List Entry) : Prop where
